@@ -26,9 +26,9 @@ impl Accept {
 }
 
 pub fn default_of(col: &ColSpec) -> RV {
-    match &col.modifier {
-        Modifier::Default(e) => match e { E::Int(i) => RV::Int(*i as i64), E::Real(x) => RV::Real(*x), E::Str(s) => RV::Text(s.clone()), E::Bool(b) => RV::Bool(*b), _ => RV::Null },
-        _ => RV::Null,
+    match col.default_expr() {
+        Some(e) => match e { E::Int(i) => RV::Int(*i as i64), E::Real(x) => RV::Real(*x), E::Str(s) => RV::Text(s.clone()), E::Bool(b) => RV::Bool(*b), _ => RV::Null },
+        None => RV::Null,
     }
 }
 
@@ -121,7 +121,7 @@ fn timestamp_from_groups(col: &ColSpec, refs: &[(String, u64)], ctx: &HashMap<St
         return a;
     }
     let default = default_of(col);
-    let micro = col.modifier == Modifier::Microseconds;
+    let micro = col.micro();
     // year, month, day, hour, minute, second, fraction
     let mut parts: [i64; 7] = [0, 1, 1, 0, 0, 0, 0];
     let mut month_absent = false;
@@ -180,7 +180,7 @@ pub fn expect_regex_column(spec: &TableSpec, ci: usize, ctx: &HashMap<String, Pa
         },
         Src::Json(_) => Accept::one(RV::Null, "json"),
     };
-    if col.modifier == Modifier::Trim { trim_variants(a) } else { a }
+    if col.trim() { trim_variants(a) } else { a }
 }
 
 // ---------------------------------------------------------------------------------------------
@@ -290,7 +290,7 @@ pub fn expect_json_column(col: &ColSpec, doc: Option<&JV>) -> Accept {
     let (found, dead_branch) = resolve2(doc, steps);
     let mut vals = Vec::new();
     let situation = if found.is_empty() { vals.push(default.clone()); "path-absent" } else {
-        for f in &found { vals.extend(leaf_accept(&col.ty, f, col.modifier == Modifier::Convert, &default)); }
+        for f in &found { vals.extend(leaf_accept(&col.ty, f, col.convert(), &default)); }
         // with duplicate keys another duplicate may lead nowhere
         if dead_branch { vals.push(default.clone()); }
         if found.len() > 1 || dead_branch { "duplicate-keys" } else { "path-present" }
